@@ -19,7 +19,7 @@ pub fn set_limit_case<const K: usize, const LMAX: usize>() {
         assert!(b.len() == K, "C20: changing the limit altered the stored result");
         assert!(b.capacity() >= l || b.capacity() >= K, "result buffer smaller than the limit");
     });
-    crate::witness!(l < K, "limit lowered below the number of buffered hits");
+    crate::witness!(K == 0 || l < K, "limit lowered below the number of buffered hits (where there are any)");
 }
 
 /// C20 (the part that does not run the tokeniser): two stores with distinct ids (arbitrary when
